@@ -87,9 +87,15 @@ func H_hashcom_open() {
 	k := verifKey()
 	m := verifBytes(verifLen(0, 4))
 	w := verifWitness()
-	var c Commitment
-	copy(c[:], verifBytes(DigestSize))
+	// the candidate commitment is an ARBITRARY value, written as (recomputed digest) XOR (arbitrary
+	// mask): a counterexample is then a mask, which replays natively against the real hash (a
+	// concrete value of c chosen under the idealised hash would not)
 	recomputed, _ := k.CommitWithWitness(m, w)
+	mask := verifBytes(DigestSize)
+	c := recomputed
+	for i := range c {
+		c[i] ^= mask[i]
+	}
 	err := k.Open(c, m, w)
 	verifReach("hashcom_open")
 	verifAssert("open.accepts_iff_digest_matches", (err == nil) == (c == recomputed))
